@@ -109,3 +109,11 @@ package coreblock
 //@   ensures ran ==> err == res(verifySignature, 1, 0)
 //@   ensures block.Signature != nil && err == nil ==> ran
 //@   tags C12
+//@
+//@ // ===== C04: the heads listed for a clock are the heads of exactly that clock: the scanned prefix is the
+//@ // clock's key followed by the key separator, so a clock whose key merely starts with the same characters
+//@ // (field 1 / field 10, collection 1 / collection 10) contributes nothing
+//@ func (*heads).List
+//@   assert before call#1 Iterator: len(arg2.Prefix) == len(res(Bytes, 1, 0)) + 1 && arg2.Prefix[len(res(Bytes, 1, 0))] == 47 && extends(arg2.Prefix, res(Bytes, 1, 0))
+//@   assert before call#1 Bytes: arg0 == hh.namespace
+//@   tags C04 C01
